@@ -363,40 +363,49 @@ def expr_value(desc, obs):
     return {"+": a + b, "-": a - b, "*": a * b, "/": (abs(a) // abs(b)) * (1 if (a >= 0) == (b >= 0) else -1) if b else 0}[op]
 
 
+def fits_position(pos, val):
+    """8-bit positions must hold the value; 16-bit positions may reduce it modulo 65536 (or reject it)"""
+    return {"imm8": -128 <= val <= 255, "fcb": -128 <= val <= 255}.get(pos, True)
+
+
 def judge_c04(drv, lines, desc, i):
     k = desc["stmt"]
     src = lines[k].strip()
     if desc.get("divzero"):
         return None if i[0] == "DIAG" else "division by zero not rejected: %s -> %s" % (src, i[0])
+    pos = desc["pos"]
     if i[0] == "DIAG":
-        # a result outside 0..65535 may be rejected; anything else must be accepted
-        return None if desc.get("may_reject") else "%s rejected" % src
+        # rejection is right when the value cannot be represented at this position; the value is known here when
+        # no label defined after the statement is involved
+        known = dict(desc.get("label_addr", {}))
+        if all(t[0] != "label" or t[1] in known for t in desc["terms"]):
+            fake = ("OK", "", None, None, (), tuple((n, "%X" % a) for n, a in known.items()))
+            val = expr_value(desc, fake)
+            if val is None or not fits_position(pos, val) or not 0 <= val <= 65535:
+                return None
+            return "%s rejected (value %d)" % (src, val)
+        return None
     if i[0] != "OK":
         return "%s: %s" % (src, i)
     val = expr_value(desc, i)
     if val == "nolabel":
         return None
-    if not 0 <= val <= 65535 and not desc.get("may_reject"):
-        return None
     a, sz, hb = i[4][k]
+    if not fits_position(pos, val):
+        return "%s accepted (value %d cannot be represented here) -> %s" % (src, val, hb)
     want = val % 65536
-    pos = desc["pos"]
     if pos == "equ":
         got = dict(i[5]).get("R")
         return None if got not in (None, "") and int(got, 16) == want else "%s: R = %s, expression value is $%X" % (src, got, want)
     if pos in ("fcb", "fdb"):
-        if pos == "fcb" and not -128 <= val <= 255:
-            return "%s accepted (value %d does not fit a byte) -> %s" % (src, val, hb)
         w = 2 if pos == "fcb" else 4
         return None if hb == ("%0" + str(w) + "X") % (val % (256 if pos == "fcb" else 65536)) else "%s -> %s, value is $%X" % (src, hb, want)
     d = decode_stmt(drv, hb)
     if d is None or d[2] != 0:
         return "%s -> %s is not one instruction" % (src, hb)
     f = d[1]
-    if pos == "imm8" and not -128 <= val <= 255:
-        return "%s accepted (value %d does not fit 8 bits) -> %s" % (src, val, hb)
-    if pos == "pcr":
-        want = (val - (a + len(hb) // 2)) % 65536
+    if pos == "pcr" and desc["has_label"]:
+        want = (val - (a + len(hb) // 2)) % 65536          # a label expression is a target address
     ok = {"imm8": f == ["imm8", str(val % 256)],
           "imm16": f == ["imm16", str(want)],
           "ext": f in (["ext", str(want)], ["dir", str(want)]),
@@ -503,6 +512,15 @@ def run(pid, tier, seed, rep, info):
             same = asmlib.same_obs(i, m)
             if m[0] == "UNMODELLED":
                 hist["unmodelled"] += 1
+            if desc.get("witness"):
+                # the recorded witness of an open finding: it must still behave as the model (= the unchanged tree) predicts
+                if same:
+                    rep.known_finding(desc["witness"], known.describe(desc["witness"]))
+                    hist["known:" + desc["witness"]] += 1
+                else:
+                    rep.violation("the witness of known finding %s no longer behaves as recorded" % desc["witness"],
+                                  {"kind": "asm", "lines": lines, "desc": desc, "impl": str(i)[:2000], "model": str(m)[:2000]})
+                continue
             fail = check_case(pid, lines, desc, i, m, drv, rep, hist)
             if fail is not None:
                 fails = fail if isinstance(fail, list) else [(desc.get("stmt"), fail)]
